@@ -142,7 +142,8 @@ func genRealtime(g *gen, prop string, budget int, emit func(string)) bool {
 		}
 	case "C03rt":
 		// 1..8 goroutines call Send on one tunnel at the same time; loss-free gateway
-		fixed := []string{"swrt 1 20", "swrt 2 20", "swrt 4 20", "swrt 8 10", "rcrt 25 10 100", "swrt 3 100", "rcrt 45 20 150"}
+		fixed := []string{"swrt 1 20", "swrt 2 20", "swrt 4 20", "swrt 8 10", "rcrt 25 10 100", "swrt 3 100", "rcrt 45 20 150",
+			"rsrt 24 40", "rsrt 90 60", "rsrt 10 40"}
 		n := 0
 		for _, s := range fixed {
 			if n < budget {
@@ -155,6 +156,13 @@ func genRealtime(g *gen, prop string, budget int, emit func(string)) bool {
 				// the gateway disconnects (and grants another channel) while a Send is still repeating
 				g.stats["rcrt"]++
 				emit(fmt.Sprintf("rcrt %d %d %d", g.pick(5, 25, 45, 70), g.pick(10, 20), g.pick(100, 150)))
+				continue
+			}
+			if n%5 == 2 {
+				// a Send that had to wait for another one, and whose own request is then lost twice
+				g.stats["rsrt"]++
+				rs := g.pick(30, 40, 60)
+				emit(fmt.Sprintf("rsrt %d %d", rs*(2+g.r.Intn(20))/10, rs))
 				continue
 			}
 			s := 1 + g.r.Intn(8)
@@ -311,6 +319,37 @@ func (m *mon) crt(script, trace string) int {
 		m.fail("close-not-idempotent", "a further Close did not return within 1 s")
 	}
 	return 5
+}
+
+// rsrt: the resend interval of a Send starts at its first transmission: the second telegram's first
+// repetition comes no earlier than one resend interval after its first transmission (later is the
+// scheduler's business, earlier is the client's), and the Send succeeds at the third transmission
+func (m *mon) rsrt(script, trace string) int {
+	f := strings.Fields(script)
+	if !strings.HasPrefix(trace, "tx=") || len(f) != 3 {
+		m.fail("bad-trace", trace)
+		return 0
+	}
+	resend, _ := strconv.Atoi(f[2])
+	parts := strings.Fields(trace)
+	var tx []int
+	for _, v := range strings.Split(strings.TrimPrefix(parts[0], "tx="), ",") {
+		if u, err := strconv.Atoi(v); err == nil {
+			tx = append(tx, u)
+		}
+	}
+	if !strings.Contains(trace, "a=ok") || !strings.Contains(trace, "b=ok") {
+		m.fail("send-failed/delayed-acknowledgement", fmt.Sprintf("both Sends are acknowledged within the response timeout, yet: %s", trace))
+		return 1
+	}
+	if len(tx) != 3 {
+		m.fail("resend-count/after-waiting-for-another-send", fmt.Sprintf("the second telegram is lost twice and acknowledged at its third transmission; the client transmitted it %d times (%s)", len(tx), trace))
+		return 1
+	}
+	if gap := tx[1] - tx[0]; gap < resend*1000-2000 {
+		m.fail("resend-interval-not-kept/after-waiting-for-another-send", fmt.Sprintf("the first repetition of the second telegram came %d us after its first transmission, the resend interval is %d ms (the time the Send waited for the other Send was taken off it)", gap, resend))
+	}
+	return 1
 }
 
 // swrt: the property itself on a real-time run with concurrent senders: every telegram whose Send
